@@ -284,6 +284,12 @@ def emit (r : Routed) : List Emit :=
 /-- `async_response` returns `None` when no question has a strategy -/
 def respondEmits (q : QueryIn) : List Emit := if q.strats.isEmpty then [] else emit (route q)
 
+/-- every answer to every QU question was multicast within a quarter of its TTL -/
+def QueryIn.allRecent (q : QueryIn) : Bool := q.strats.all (fun st => st.answers.all (fun a => a.recent q.now))
+
+/-- every question that has answers is a QU question and the query came from the mDNS port -/
+def QueryIn.pureQU (q : QueryIn) : Bool := !Gen.Listener.ucast_source q.port && q.strats.all (·.unique)
+
 /-! ## The observation-level predicate of the property (stage O)
 
 `ref` and `dup` are the send logs of the reference run and of the run with every datagram duplicated.
